@@ -64,6 +64,24 @@ Theorem C01_member_forgery_refuted :
     fst (open_step (run_store 8 empty_store hist) e cid None) = ROk (100000 + 1).
 Proof. exact open_sound_member_refuted. Qed.
 
+(* a rejected envelope (wrong key for its counter, or a signature that is not the claimed device's)
+   under a fresh CID leaves NO mutation in the store, so the same bytes presented again under the
+   same CID - the message store re-opens parked entries, listings re-open the whole log - are
+   rejected again, any number of times *)
+Theorem C01_rejected_leaves_no_trace :
+  forall s e cid own n,
+    get_cid s cid = None ->
+    (forall mk, get_pre s (e_group e) (e_dev e) (e_ctr e) = Some mk ->
+                msgkey_eqb mk (e_key e) = false \/ (e_signer e =? e_dev e) = false) ->
+    open_step s e cid own = (RFail, []) /\
+    Nat.iter n (fun st => apply_muts st (snd (open_step st e cid own))) s = s /\
+    fst (open_step (Nat.iter n (fun st => apply_muts st (snd (open_step st e cid own))) s) e cid own) = RFail.
+Proof.
+  intros s e cid own n Hc Hbad.
+  exact (conj (rejected_leaves_no_trace s e cid own Hc Hbad) (rejected_again s e cid own n Hc Hbad)).
+Qed.
+
+Print Assumptions C01_rejected_leaves_no_trace.
 Print Assumptions C01_seal_produces_honest.
 Print Assumptions C01_open_fresh_requires.
 Print Assumptions C01_open_sound_outsider.
